@@ -52,7 +52,7 @@ def concretise(o, rng):
         th["n3lo_ad_variation"] = n3lo
     xgrid = sorted({round(10 ** rng.uniform(-4, -0.1), 5) for _ in range(4)} | {1.0})
     op = dict(interpolation_xgrid=xgrid, interpolation_polynomial_degree=rng.choice([1, 2, 3]),
-              interpolation_is_log=True, ev_op_max_order=o["maxo"], ev_op_iterations=rng.randrange(1, 30),
+              interpolation_is_log=rng.random() < 0.6, ev_op_max_order=o["maxo"], ev_op_iterations=rng.randrange(1, 30),
               n_integration_cores=rng.randrange(1, 4), debug_skip_non_singlet=rng.random() < 0.5,
               debug_skip_singlet=rng.random() < 0.5, polarized=rng.random() < 0.5, time_like=rng.random() < 0.5)
     pts = [mu[g] for g in o["grid"]]
@@ -119,7 +119,8 @@ def convert(o, rng):
                             method=c.evolution_method.value, scvar=NONE if c.scvar_method is None else c.scvar_method.value,
                             inv=NONE if c.inversion_method is None else c.inversion_method.value,
                             maxorder=[int(c.ev_op_max_order[0]), int(c.ev_op_max_order[1])])
-            same = {"xgrid": [float(x) for x in no.xgrid.raw] == op["interpolation_xgrid"],
+            same = {"xgrid": [float(x) for x in no.xgrid.raw] == op["interpolation_xgrid"]
+                    and bool(no.xgrid.log) == op["interpolation_is_log"],
                     "skip_singlet": no.debug.skip_singlet == op["debug_skip_singlet"],
                     "skip_non_singlet": no.debug.skip_non_singlet == op["debug_skip_non_singlet"]}
             for k in COPY_OP[1:7]:
